@@ -57,6 +57,10 @@ def gen(tier, rng, harness=None, driver=None):
     # an explicit ID that reads as zero at a position that is not the first unnamed value (any spelling: `%0`, `%00`, `00:`) must be rejected, not renumbered
     for kind, text in localgen.zero_spellings():
         lines.append("!mod.mustfail - %s" % hx(text))
+    # unnamed GLOBAL entities defined twice under one written ID, or written with an ID that is not their place in the sequence (a reference by number would
+    # bind to another entity), and parameter IDs of declarations
+    for kind, text, ok in localgen.global_numberings() + localgen.declaration_numberings():
+        lines.append(("!mod.accept - %s" if ok else "!mod.mustfail - %s") % hx(text))
     for m, text, sk in modprops.gen_modules(rng, n):
         lines.append("mod.outcome %s %s" % (hx(sk), hx(text)))
         for kind, exp, ft, fsk in modgen.faults(rng, text, sk):
